@@ -58,11 +58,11 @@ _PATCHED = False
 
 def patch():
     global _PATCHED
+    manager_mod.RLock = e2.SLock
+    helpers_mod.Event = e2.SEvent      # (re-assigned every time: other harnesses of the same process install their own double)
     if _PATCHED:
         return
     doubles.patch_process_globals()
-    manager_mod.RLock = e2.SLock
-    helpers_mod.Event = e2.SEvent
     pollers_mod.select = e2.SSelect()
     e2.monitor_functions(monitored())
     _PATCHED = True
